@@ -18,7 +18,7 @@
 /* lines.c: decode_line() token loop -- the code's cursor equals the monitor's cursor */
 #ifndef VERIF_LOOP_decode_line
 #define VERIF_LOOP_decode_line \
-  __CPROVER_assigns(p, len, in_string, file_pos, mon_phase, mon_i, mon_q, g_wfail, g_diag, g_out_events, g_lines_listed) \
+  __CPROVER_assigns(p, len, in_string, file_pos, G) \
   __CPROVER_loop_invariant(mon_i <= orig_len && len == orig_len - mon_i) \
   __CPROVER_loop_invariant(p == (const unsigned char *)data + mon_i) \
   __CPROVER_loop_invariant(mon_on ==> (mon_phase == PH_TOKENS && in_string == mon_q)) \
@@ -29,11 +29,29 @@
   __CPROVER_decreases(len)
 #endif
 
+/* lines.c: the per-line loops of the two program decoders.  At the loop head the file cursor is at a
+   line boundary of the framing automaton, every framed line has been listed, and the running indent
+   is the specification's. */
+#define VERIF_LOOP_DECODER_INVARIANT \
+  __CPROVER_loop_invariant(g_pos <= g_len && empty == (g_pos == 0)) \
+  __CPROVER_loop_invariant((fmon_phase == FPH_START && (g_pos == 0 || !(SPEC_BIG_ENDIAN))) || (fmon_phase == FPH_LINE_READY && g_pos > 0)) \
+  __CPROVER_loop_invariant(g_lines_listed == fmon_lines && fmon_lines < (1ul << 38) + g_pos) \
+  __CPROVER_loop_invariant(indent == mon_indent_run && -4 * (long)g_pos <= indent && indent <= 4 * (long)g_pos) \
+  __CPROVER_loop_invariant(g_wfail == __CPROVER_loop_entry(g_wfail)) \
+  __CPROVER_loop_invariant(!g_read_error_happened) \
+  __CPROVER_decreases(g_len - g_pos)
+
 #ifndef VERIF_LOOP_decode_le
-#define VERIF_LOOP_decode_le
+#define VERIF_LOOP_decode_le \
+  __CPROVER_assigns(L3_GHOST_FRAME, indent, empty, file_pos, __CPROVER_object_whole(buf)) \
+  __CPROVER_loop_invariant(g_diag == __CPROVER_loop_entry(g_diag)) \
+  VERIF_LOOP_DECODER_INVARIANT
 #endif
 #ifndef VERIF_LOOP_decode_be
-#define VERIF_LOOP_decode_be
+#define VERIF_LOOP_decode_be \
+  __CPROVER_assigns(L3_GHOST_FRAME, indent, empty, warned, file_pos, len, __CPROVER_object_whole(buf)) \
+  __CPROVER_loop_invariant(g_diag == __CPROVER_loop_entry(g_diag) + (warned ? 1u : 0u)) \
+  VERIF_LOOP_DECODER_INVARIANT
 #endif
 #ifndef VERIF_LOOP_bm_ascii
 #define VERIF_LOOP_bm_ascii
